@@ -221,10 +221,25 @@ fn apply(
             } else {
                 (root_b, fb, root_a, fa)
             };
-            let loser_name = {
+            // The copy is named after the loser's content. Never let it replace a file
+            // that holds OTHER bytes under that name (an earlier conflict copy the user
+            // has edited since): take the first numbered variant that is free or already
+            // holds exactly these bytes. Both scans are in hand, so both replicas get the
+            // same name.
+            let mut attempt = 0u32;
+            let loser_name = loop {
                 let mut n = rel.as_os_str().to_owned();
                 n.push(format!(".conflict-{host}-{}", short_hex(&lose_fp.blake3)));
-                PathBuf::from(n)
+                if attempt > 0 {
+                    n.push(format!(".{attempt}"));
+                }
+                let candidate = PathBuf::from(n);
+                let other_on_a = a.get(&candidate).is_some_and(|f| f != lose_fp);
+                let other_on_b = b.get(&candidate).is_some_and(|f| f != lose_fp);
+                if !other_on_a && !other_on_b {
+                    break candidate;
+                }
+                attempt += 1;
             };
             let win_full = win_root.join(rel); // winner content
             let lose_full = lose_root.join(rel); // loser content (about to be overwritten)
